@@ -232,9 +232,9 @@ def run(tier, replay=None):
     tlc_job("live_rx", "Channel", write_cfg(wd, "live_rx.cfg", "FairSpec", live_rx, invariants=SAFETY_RX,
                                             properties="P_C11_Live"), workers=2, timeout=2400)
     # the composition of both ends is small on purpose: its state space is the product of the two halves
-    live_e2e = dict(geometry(16, 32), Scope="e2e", WriteSizes=[20, 32, 33] if thorough else [20, 33],
-                    MaxWrites=1, MaxInjects=1, MaxInFlight=2, Canonical=True, LazyInject=True,
-                    Bounded=True, History=True, InjUndec=[12], InjShort=[7])
+    # (one more accepted length multiplies it by ~20), the halves are checked at scale on their own above
+    live_e2e = dict(geometry(16, 32), Scope="e2e", WriteSizes=[20, 33], MaxWrites=1, MaxInjects=1, MaxInFlight=2,
+                    Canonical=True, LazyInject=True, Bounded=True, History=True, InjUndec=[12], InjShort=[7])
     tlc_job("live_e2e", "Channel", write_cfg(wd, "live_e2e.cfg", "FairSpec", live_e2e,
                                              invariants=SAFETY_RX + " P_C11_History P_C11_WriteAccepted",
                                              properties="P_C11_Live P_C11_DeliverHead"), workers=2, timeout=2400)
